@@ -186,9 +186,9 @@ func Registry() []*Spec {
 		Covers: []string{"done"}, UnitDepth: 4,
 		Note: "string literals from 8 templates with symbolic content bytes (free bytes, escape letter, \\uXXXX with symbolic hex digits, surrogate pairs), as array element and as object key, through oj.Parse, oj.Tokenize+Builder, gen.Parse, sen.Parse vs the reference decoder"})
 	add(Spec{Property: "C02", Name: "VerifC02_Numbers", Pkg: "asm", Arith: true,
-		Quick: map[string]int{"K1": 5, "K2": 3, "EXP": 2, "CTX": 2, "FE": 3, "F19": 2}, Thorough: map[string]int{"K1": 7, "K2": 3, "EXP": 3, "CTX": 2, "FE": 5, "F19": 2},
+		Quick: map[string]int{"K1": 5, "K2": 3, "EXP": 2, "CTX": 2, "FE": 3, "F19": 2}, Thorough: map[string]int{"K1": 5, "K2": 3, "EXP": 3, "CTX": 2, "FE": 5, "F19": 2},
 		Covers: []string{"int64", "float64"}, UnitDepth: 6,
-		Note: "number literals -?I(.F)?(e..)? with every digit symbolic, digit counts I in {1,2,17,18,19} (thorough: also 20, 21), F in {0,1,2} plus the two threshold shapes (1 digit).(19 digits) and (19 digits).(18 digits), exponent forms none / e1 (thorough: also E+12), standalone / array element, through oj.Parse, ParseReader(1-byte reads), Tokenizer (Parse and Load 1-byte), sen.Parse: int64 results are the literal exactly (strconv.FormatInt contract stub inverted to the input digits), float64 results are strconv.ParseFloat of a text with the same decimal denotation (nearest-float rounding trusted to strconv), json.Number text has the same denotation"})
+		Note: "number literals -?I(.F)?(e..)? with every digit symbolic, digit counts I in {1,2,17,18,19}, F in {0,1,2} plus the two threshold shapes (1 digit).(19 digits) and (19 digits).(18 digits), exponent forms none / e1 (thorough: also E+12), standalone / array element, through oj.Parse, ParseReader(1-byte reads), Tokenizer.Parse (thorough: also sen.Parse and Tokenizer.Load 1-byte): int64 results are the literal exactly (strconv.FormatInt contract stub inverted to the input digits), float64 results are strconv.ParseFloat of a text with the same decimal denotation (nearest-float rounding trusted to strconv), json.Number text has the same denotation"})
 	// ---- C08: sequential ownership lemma (partial)
 	add(Spec{Property: "C08", Name: "VerifC08_Ownership", Pkg: "asm",
 		Quick: map[string]int{}, Thorough: map[string]int{},
